@@ -63,6 +63,22 @@ Fixpoint osteps (o : list (dest * (bool * N))) (l : list (dest * (bool * N))) : 
                    if fi_eqb v v' then osteps (outgoing s') r else None
   end.
 
+(* the transmissions in the observable trace (out, newest first), oldest first ... *)
+Fixpoint wire (o : list (N * event)) : list (N * dest * bytes) :=
+  match o with
+  | [] => []
+  | (t, ESent d b) :: r => wire r ++ [(t, d, b)]
+  | _ :: r => wire r
+  end.
+(* ... and what the transmissions recorded in the ghost history put on the wire *)
+Fixpoint gwire (l : list (N * gev)) : list (N * dest * bytes) :=
+  match l with
+  | [] => []
+  | (t, GSend es d f i) :: r => gwire r ++ match sd_datagram es f i with Ok b => [(t, d, b)] | Err _ => [] end
+  | _ :: r => gwire r
+  end.
+Definition notsent_b (e : event) : bool := match e with ESent _ _ => false | _ => true end.
+
 (* two worlds that agree on everything the invariants read *)
 Record same (w w' : world) : Prop := mkSame {
   sm_tmr : timers w' = timers w; sm_rdy : rdy w' = rdy w; sm_can : cancelled w' = cancelled w;
@@ -77,6 +93,7 @@ Record same (w w' : world) : Prop := mkSame {
   sm_queues : queues w' = queues w;
   sm_qlog : qlog (glog w') = qlog (glog w);
   sm_sess : exists l, slog (glog w') = slog (glog w) ++ l /\ osteps (outgoing (sess w)) l = Some (outgoing (sess w'));
+  sm_wire : exists m, wire (out w') = wire (out w) ++ m /\ gwire (glog w') = gwire (glog w) ++ m;
   sm_ready : exists l, ready w' = ready w ++ l /\ Forall (fun r => fst r = None /\ nocoll_b (snd r) = true) l }.
 
 Lemma osteps_app o l1 l2 : osteps o (l1 ++ l2) = match osteps o l1 with Some o' => osteps o' l2 | None => None end.
@@ -85,13 +102,14 @@ Proof.
   destruct (assign_outgoing (mkSess [] o) d) as [v' s']. destruct (fi_eqb v v'); [apply IH|reflexivity].
 Qed.
 Lemma same_refl w : same w w.
-Proof. constructor; try reflexivity; exists []; rewrite app_nil_r; split; [reflexivity|constructor|reflexivity|constructor]. Qed.
+Proof. constructor; try reflexivity; exists []; rewrite ?app_nil_r; split; first [reflexivity|constructor]. Qed.
 Lemma same_trans a b c : same a b -> same b c -> same a c.
 Proof.
-  intros [A1 A2 A3 A4 A5 A6 A7 A8 A9 A10 A11 Ac Ad Ae Af (m1 & As1 & As2) (l1 & A12 & A13)]
-         [B1 B2 B3 B4 B5 B6 B7 B8 B9 B10 B11 Bc Bd Be Bf (m2 & Bs1 & Bs2) (l2 & B12 & B13)].
+  intros [A1 A2 A3 A4 A5 A6 A7 A8 A9 A10 A11 Ac Ad Ae Af (m1 & As1 & As2) (n1 & Aw1 & Aw2) (l1 & A12 & A13)]
+         [B1 B2 B3 B4 B5 B6 B7 B8 B9 B10 B11 Bc Bd Be Bf (m2 & Bs1 & Bs2) (n2 & Bw1 & Bw2) (l2 & B12 & B13)].
   constructor; try congruence; try (intros; rewrite ?B5, ?B6, ?B7, ?B9; auto; fail).
   - exists (m1 ++ m2). rewrite Bs1, As1, app_assoc. split; [reflexivity|]. rewrite osteps_app, As2. exact Bs2.
+  - exists (n1 ++ n2). rewrite Bw1, Aw1, Bw2, Aw2, !app_assoc. split; reflexivity.
   - exists (l1 ++ l2). rewrite B12, A12, app_assoc. split; [reflexivity|apply Forall_app; auto].
 Qed.
 Lemma same_tided w w' : same w w' -> tided w' = tided w.
@@ -99,7 +117,7 @@ Proof. intros [A1 A2 _ _ _ _ _ _ _ _ _ _]. unfold tided, tmr. rewrite A1, A2. re
 
 Lemma same_G X w w' : same w w' -> GP X w -> GP X w'.
 Proof.
-  intros Hs [H1 H2 H3 H4 H5 H6 H7 H8 H9]. pose proof (same_tided _ _ Hs) as Ht. destruct Hs as [A1 A2 A3 A4 A5 A6 A7 A8 A9 A10 A11 Ac Ad Ae Af Ag A12].
+  intros Hs [H1 H2 H3 H4 H5 H6 H7 H8 H9]. pose proof (same_tided _ _ Hs) as Ht. destruct Hs as [A1 A2 A3 A4 A5 A6 A7 A8 A9 A10 A11 Ac Ad Ae Af Ag Aw A12].
   constructor; rewrite ?Ht, ?A3, ?A4; try assumption.
   - intros st a k tid. rewrite A5. apply H3.
   - intros st a. rewrite A5. apply H4.
@@ -127,11 +145,11 @@ Lemma keeps_fold {Y} (f : world -> Y -> world) l : (forall x, keeps (fun w => f 
 Proof. intros H. induction l as [|x l IH]; intros X w Hg; cbn [fold_left]; [exact Hg|]. apply IH. apply (H x). exact Hg. Qed.
 
 (* ------------------------------------------------------------------ neutral primitives *)
-Ltac triv_same := constructor; intros; try reflexivity; exists []; rewrite app_nil_r; split; first [reflexivity|constructor].
-Lemma n_emit e : neutral (emit e). Proof. intros w. triv_same. Qed.
+Ltac triv_same := constructor; intros; try reflexivity; exists []; rewrite ?app_nil_r; split; first [reflexivity|constructor].
+Lemma n_emit e : notsent_b e = true -> neutral (emit e). Proof. intros H w. destruct e; try discriminate; triv_same. Qed.
 (* the session storage may change as long as the outgoing table does not (received messages only touch the incoming one) *)
 Lemma n_set_sess_in s w : outgoing s = outgoing (sess w) -> same w (set_sess s w).
-Proof. intros H. constructor; intros; try reflexivity; exists []; rewrite app_nil_r; split; first [reflexivity|constructor|cbn [osteps sess set_sess]; rewrite H; reflexivity]. Qed.
+Proof. intros H. constructor; intros; try reflexivity; exists []; rewrite ?app_nil_r; split; first [reflexivity|constructor|cbn [osteps sess set_sess]; rewrite H; reflexivity]. Qed.
 Lemma check_received_outgoing s a mc f i : outgoing (snd (check_received s a mc f i)) = outgoing s.
 Proof. unfold check_received. destruct (aget _ _ _) as [[of oi]|]; reflexivity. Qed.
 Lemma n_set_sess_rx w a mc f i : same w (set_sess (snd (check_received (sess w) a mc f i)) w).
@@ -163,6 +181,7 @@ Proof.
   - unfold call_soon, rdy. cbn [ready set_ready]. rewrite flat_map_app. cbn. rewrite app_nil_r. reflexivity.
   - unfold call_soon, ne_ready. cbn [ready set_ready]. rewrite forallb_app. cbn. rewrite Hn, !andb_true_r. reflexivity.
   - exists []. rewrite app_nil_r. split; reflexivity.
+  - exists []. rewrite !app_nil_r. split; reflexivity.
   - exists [(None, h)]. split; [reflexivity|constructor; [split; [reflexivity|exact Hc]|constructor]].
 Qed.
 Lemma n_id : neutral (fun w => w). Proof. intros w. apply same_refl. Qed.
@@ -186,12 +205,15 @@ Proof.
                = (fst (assign_outgoing (sess w) d), mkSess [] (outgoing (snd (assign_outgoing (sess w) d))))).
   { unfold assign_outgoing, out_get. cbn [outgoing]. destruct (aget dest_eqb d (outgoing (sess w))) as [[f0 i0]|]; reflexivity. }
   destruct (assign_outgoing (sess w) d) as [[fl sid] s'] eqn:Ea. cbn [fst snd] in Ho.
-  assert (Hs : same w (set_sess s' (ghost (GSend (e :: es) d fl sid) w))).
-  { constructor; intros; try reflexivity.
-    - exists [(d, (fl, sid))]. split; [reflexivity|]. cbn [osteps]. rewrite Ho. unfold fi_eqb. cbn [fst snd].
-      rewrite Bool.eqb_reflx, N.eqb_refl. reflexivity.
-    - exists []. rewrite app_nil_r. split; [reflexivity|constructor]. }
-  destruct (sd_datagram _ _ _); (eapply same_trans; [exact Hs|apply n_emit]).
+  assert (Hsess : exists l, slog (glog (ghost (GSend (e :: es) d fl sid) w)) = slog (glog w) ++ l
+                            /\ osteps (outgoing (sess w)) l = Some (outgoing s')).
+  { exists [(d, (fl, sid))]. split; [reflexivity|]. cbn [osteps]. rewrite Ho. unfold fi_eqb. cbn [fst snd].
+    rewrite Bool.eqb_reflx, N.eqb_refl. reflexivity. }
+  destruct (sd_datagram (e :: es) fl sid) as [b|err] eqn:Ed.
+  - constructor; intros; try reflexivity; [exact Hsess| |exists []; rewrite app_nil_r; split; [reflexivity|constructor]].
+    exists [(now w, d, b)]. split; [reflexivity|]. cbn [emit set_out set_sess ghost set_glog glog gwire]. rewrite Ed. reflexivity.
+  - constructor; intros; try reflexivity; [exact Hsess| |exists []; rewrite app_nil_r; split; [reflexivity|constructor]].
+    exists []. rewrite !app_nil_r. split; [reflexivity|]. cbn [emit set_out set_sess ghost set_glog glog gwire]. rewrite Ed, app_nil_r. reflexivity.
 Qed.
 
 (* ------------------------------------------------------------------ basic facts *)
@@ -370,12 +392,12 @@ Proof.
 Qed.
 Lemma n_listener_offered l s a : neutral (listener_offered l s a).
 Proof.
-  intros w. destruct l as [id|g]; cbn [listener_offered]; [apply n_emit|].
+  intros w. destruct l as [id|g]; cbn [listener_offered]; [apply n_emit; reflexivity|].
   destruct (for_service g s); [apply n_subscribe_eventgroup|apply same_refl].
 Qed.
 Lemma n_listener_stopped l s a : neutral (listener_stopped l s a).
 Proof.
-  intros w. destruct l as [id|g]; cbn [listener_stopped]; [apply n_emit|].
+  intros w. destruct l as [id|g]; cbn [listener_stopped]; [apply n_emit; reflexivity|].
   destruct (for_service g s); [apply n_stop_subscribe_eventgroup|apply same_refl].
 Qed.
 
@@ -391,13 +413,13 @@ Proof.
 Qed.
 
 Lemma n_client_subscribed i sub a : neutral (fun w => fst (client_subscribed i sub a w)).
-Proof. intros w. unfold client_subscribed. destruct (aget N.eqb i (insts w)); cbn [fst]; [apply n_emit|apply same_refl]. Qed.
+Proof. intros w. unfold client_subscribed. destruct (aget N.eqb i (insts w)); cbn [fst]; [apply n_emit; reflexivity|apply same_refl]. Qed.
 
 Lemma n_store_callback st k a : neutral (store_callback st k a).
 Proof.
   intros w. destruct st as [|i], k as [s|sub]; cbn [store_callback]; try apply same_refl.
   - apply n_notify_service. intros l. apply n_listener_stopped.
-  - apply n_emit.
+  - apply n_emit; reflexivity.
 Qed.
 
 Lemma n_found_iter f g : (forall s a, neutral (g s a)) -> neutral (found_iter f g).
@@ -417,7 +439,7 @@ Lemma n_stop_watch_service f l : neutral (stop_watch_service f l).
 Proof.
   intros w. unfold stop_watch_service. destruct (remove_first _ _ _).
   - eapply same_trans; [apply n_set_watched|]. apply n_found_iter. intros s a. apply n_listener_stopped.
-  - eapply same_trans; [apply n_set_watched|apply n_emit].
+  - eapply same_trans; [apply n_set_watched|apply n_emit; reflexivity].
 Qed.
 Lemma n_watch_all_services l : neutral (watch_all_services l).
 Proof.
@@ -426,7 +448,7 @@ Proof.
 Qed.
 Lemma n_stop_watch_all_services l : neutral (stop_watch_all_services l).
 Proof.
-  intros w. unfold stop_watch_all_services. destruct (remove_first _ _ _); [|apply n_emit].
+  intros w. unfold stop_watch_all_services. destruct (remove_first _ _ _); [|apply n_emit; reflexivity].
   eapply same_trans; [apply n_set_watch_all|]. apply n_found_iter. intros s a. apply n_listener_stopped.
 Qed.
 Lemma n_connection_lost : neutral connection_lost.
@@ -844,7 +866,7 @@ Qed.
 
 Lemma n_put_inst i ins' w ins : get_inst i w = Some ins -> in_subs ins' = in_subs ins -> same w (put_inst i ins' w).
 Proof.
-  intros Hget Hs. constructor; try reflexivity; [|exists []; rewrite app_nil_r; split; reflexivity|exists []; rewrite app_nil_r; split; [reflexivity|constructor]]. intros st a. destruct st as [|j]; [reflexivity|].
+  intros Hget Hs. constructor; try reflexivity; [|exists []; rewrite app_nil_r; split; reflexivity|exists []; rewrite !app_nil_r; split; reflexivity|exists []; rewrite app_nil_r; split; [reflexivity|constructor]]. intros st a. destruct st as [|j]; [reflexivity|].
   unfold get_store, put_inst. cbn [insts set_insts]. destruct (N.eqb_spec j i) as [->|Hne].
   - rewrite (aget_aset_same N.eqb N.eqb_eq). unfold get_inst in Hget. rewrite Hget, Hs. reflexivity.
   - rewrite (aget_aset_other N.eqb N.eqb_eq) by exact Hne. reflexivity.
@@ -859,7 +881,7 @@ Proof. intros X w Hg. unfold inst_send_offer. destruct (get_inst i w); [apply ke
 Lemma keeps_inst_start i : keeps (fun w => fst (inst_start i w)).
 Proof.
   intros X w Hg. unfold inst_start. destruct (get_inst i w) as [ins|] eqn:Ei; [|exact Hg].
-  destruct (in_task ins); [cbn [fst]; eapply same_G; [apply n_emit|exact Hg]|].
+  destruct (in_task ins); [cbn [fst]; eapply same_G; [apply n_emit; reflexivity|exact Hg]|].
   destruct (new_task (TOffer i) w) as [t w1] eqn:E. cbn [fst].
   pair_keeps (keeps_new_task (TOffer i) X w) E.
   assert (Hi1 : get_inst i w1 = Some ins).
@@ -876,7 +898,7 @@ Qed.
 Lemma keeps_inst_stop i : keeps (fun w => fst (inst_stop i w)).
 Proof.
   intros X w Hg. unfold inst_stop. destruct (get_inst i w) as [ins|] eqn:Ei; [|exact Hg].
-  destruct (in_task ins) as [t|]; [|cbn [fst]; eapply same_G; [apply n_emit|exact Hg]].
+  destruct (in_task ins) as [t|]; [|cbn [fst]; eapply same_G; [apply n_emit; reflexivity|exact Hg]].
   cbn [fst]. apply keeps_store_stop_all.
   set (w1 := put_inst i _ (cancel_task t w)).
   assert (Hg1 : GP X w1).
@@ -912,7 +934,7 @@ Proof.
 Qed.
 Lemma keeps_stop_announce_service i b : keeps (stop_announce_service i b).
 Proof.
-  intros X w Hg. unfold stop_announce_service. destruct (remove_first N.eqb i (announcing w)); [|eapply same_G; [apply n_emit|exact Hg]].
+  intros X w Hg. unfold stop_announce_service. destruct (remove_first N.eqb i (announcing w)); [|eapply same_G; [apply n_emit; reflexivity|exact Hg]].
   assert (Hg1 : GP X (set_announcing l w)) by (eapply same_G; [apply n_set_announcing|exact Hg]).
   destruct (b && ann_started (set_announcing l w)); [apply keeps_inst_stop|]; exact Hg1.
 Qed.
